@@ -430,7 +430,7 @@ func reifyValue(
 		if err := reifyInto(opts.opts, newMap, sub); err != nil {
 			return reflect.Value{}, err
 		}
-		return newMap, nil
+		return pointerize(t, baseType, newMap), nil
 
 	case reflect.Slice:
 		v, err := reifySlice(opts, baseType, val)
